@@ -978,7 +978,9 @@ func setupRegister(env *object.Environment, name string, value int64, body ast.N
 	if log.LogVerbose() {
 		out := strings.Builder{}
 		ps := &ast.PrintState{Out: &out, Compact: true}
-		newBody.PrettyPrint(ps)
+		if newBody != nil { // nil when Modify refuses the rewrite (ok is false).
+			newBody.PrettyPrint(ps)
+		}
 		log.LogVf("replaced %d registers - ok = %t: %s", register.Count, ok, out.String())
 	}
 	if !ok || register.Count == 0 {
